@@ -9,6 +9,8 @@ from . import core
 from . import c11_docs as D
 from . import c11_world as W
 
+_PROBE_NAMES = sorted(D.PROBES)
+_ATOM_NAMES = sorted(D.ATOM_PROBES)
 BLOCK_PLACEMENTS = ['top', 'quote', 'list', 'loose_list', 'quote_in_list', 'list_in_quote', 'after_para']
 SPAN_PLACEMENTS = D.PLACEMENTS
 RECLIMITS = [60, 100, 160]
@@ -164,47 +166,63 @@ def systematic_history(v, mode, rotation):
     raise ValueError(mode)
 
 
+def _walk(n, stride, start):
+    """i -> i+stride (mod n) from `start` until it closes: visits the ordered pair (x_i, x_{i+stride}) for every i of the cycle."""
+    seq, j = [start], (start + stride) % n
+    while j != start:
+        seq.append(j)
+        j = (j + stride) % n
+    seq.append(start)
+    return seq
+
+
+def _docs_history(rid, opts, same_instance, docs):
+    if same_instance:
+        return [{'k': 'CTX', 'R': rid, 'opts': opts, 'exit': 'normal', 'steps': [{'k': 'RENDER', 'doc': d} for d in docs]}]
+    return [{'k': 'MD', 'R': rid, 'opts': opts, 'doc': d} for d in docs]
+
+
+def _build_pair(rid, oi, same_instance, stride, start):
+    names = _PROBE_NAMES
+    return _docs_history(rid, W.OPTIONS[rid][oi], same_instance, [D.PROBES[names[x]] for x in _walk(len(names), stride, start)])
+
+
+_SPEC = []
+
+
+def _build_spec(rid, stride, start):
+    return _docs_history(rid, {}, bool(stride % 2), [_SPEC[x] for x in _walk(len(_SPEC), stride, start)])
+
+
 def pair_histories(tier):
     """
     Fault-free enumeration: every ordered pair (d1, d2) of probes rendered back to back, by one instance
-    and by two separate calls, under every renderer (thorough: every option set).
+    and by two separate calls, under every renderer (thorough: every option set). Entries are lazy: (batch, builder).
     """
-    names = sorted(D.PROBES)
-    n = len(names)
+    import functools
+    import math
+    n = len(_PROBE_NAMES)
     out = []
-    configs = []
     for rid in W.RENDERER_IDS:
         for oi, opts in enumerate(W.OPTIONS[rid]):
             if tier != 'thorough' and oi > 0:
                 continue
-            configs.append((rid, opts))
-    for rid, opts in configs:
-        for stride in range(1, n + 1):
-            # i -> i+stride (mod n): the walk visits the pair (p_i, p_{i+stride}) for every i of its cycle
-            seen = set()
-            for start in range(n):
-                if start in seen:
-                    continue
-                seq = []
-                j = start
-                while j not in seen:
-                    seen.add(j)
-                    seq.append(j)
-                    j = (j + stride) % n
-                seq.append(j)
-                docs = [D.PROBES[names[x]] for x in seq]
-                # quick: each ordered pair in one of the two modes (by stride parity); thorough: in both
-                if tier == 'thorough' or stride % 2 == 1 or opts:
-                    out.append(('pairs_same_instance', [{'k': 'CTX', 'R': rid, 'opts': opts, 'exit': 'normal',
-                                                         'steps': [{'k': 'RENDER', 'doc': d} for d in docs]}]))
-                if not opts and (tier == 'thorough' or stride % 2 == 0):
-                    out.append(('pairs_separate_calls', [{'k': 'MD', 'R': rid, 'opts': {}, 'doc': d} for d in docs]))
+            for stride in range(1, n + 1):
+                for start in range(math.gcd(n, stride)):
+                    # quick: each ordered pair in one of the two modes (by stride parity); thorough: in both
+                    if tier == 'thorough' or stride % 2 == 1 or opts:
+                        out.append(('pairs_same_instance', functools.partial(_build_pair, rid, oi, True, stride, start)))
+                    if not opts and (tier == 'thorough' or stride % 2 == 0):
+                        out.append(('pairs_separate_calls', functools.partial(_build_pair, rid, oi, False, stride, start)))
     return out
 
 
 def spec_pair_histories(tier, seed, spec):
     """Fault-free: documents of the specification corpus (input data only) rendered back to back. thorough: every ordered
     pair under every renderer (stride walks; mode alternates with the stride); quick: four seeded strides per renderer."""
+    import functools
+    import math
+    _SPEC[:] = spec
     n = len(spec)
     out = []
     if n < 2:
@@ -215,23 +233,8 @@ def spec_pair_histories(tier, seed, spec):
         else:
             strides = sorted({1 + (seed * 7 + ri * 131 + j * 977) % n for j in range(4)})
         for stride in strides:
-            seen = set()
-            for start in range(n):
-                if start in seen:
-                    continue
-                seq = []
-                j = start
-                while j not in seen:
-                    seen.add(j)
-                    seq.append(j)
-                    j = (j + stride) % n
-                seq.append(j)
-                docs = [spec[x] for x in seq]
-                if stride % 2:
-                    out.append(('spec_pairs', [{'k': 'CTX', 'R': rid, 'opts': {}, 'exit': 'normal',
-                                                'steps': [{'k': 'RENDER', 'doc': d} for d in docs]}]))
-                else:
-                    out.append(('spec_pairs', [{'k': 'MD', 'R': rid, 'opts': {}, 'doc': d} for d in docs]))
+            for start in range(math.gcd(n, stride)):
+                out.append(('spec_pairs', functools.partial(_build_spec, rid, stride, start)))
     return out
 
 
@@ -374,8 +377,6 @@ def _pick_doc(rng, thorough, extra_docs):
     return doc
 
 
-_PROBE_NAMES = sorted(D.PROBES)
-_ATOM_NAMES = sorted(D.ATOM_PROBES)
 _SENTINEL_FOR = {   # which probe shows the state a fault kind can strand
     'F1': ['setext2', 'setext1', 'plain', 'ref_shortcut'],
     'F2': ['plain', 'plain_em', 'code', 'setext2', 'entity_def'],
